@@ -28,6 +28,8 @@ type Solver struct {
 	in        io.WriteCloser
 	out       *bufio.Reader
 	defined   map[int]bool
+	treeSize  map[int]int  // term id -> size of the term unfolded as a tree down to the nearest cut points
+	cut       map[int]bool // terms emitted as named constants (declare-const + equation) instead of macros
 	declVar   map[int]bool
 	declUF    map[string]bool
 	declTbl   map[string]bool
@@ -125,6 +127,8 @@ func (s *Solver) Pop() {
 	s.levels = s.levels[:n]
 }
 
+const cutSize = 120
+
 // define emits declarations/definitions for every node under t not yet known to the solver.
 func (s *Solver) define(t *Term) {
 	var sb strings.Builder
@@ -173,11 +177,33 @@ func (s *Solver) define(t *Term) {
 		s.defined[t.ID] = true
 		id := t.ID
 		s.undo(func() { delete(s.defined, id) })
-		// A named constant with a defining equation instead of a define-fun macro: z3 expands nested 0-ary
-		// macros at parse time, which on deep shared DAGs (bits.Len64 chains, varint code) cost ~10x the
-		// solving time (measured 7.9 s vs 0.6 s on one C17 transcript). Equisatisfiable, same models for
-		// the declared variables; scoped by push/pop exactly like the macro was.
-		fmt.Fprintf(&sb, "(declare-const t%d %s)\n(assert (= t%d %s))\n", t.ID, sortStr(t.W), t.ID, body(t))
+		// z3 expands nested 0-ary define-fun macros at parse time by walking them as trees: on deep shared
+		// DAGs (bits.Len64 chains over varint arithmetic) that costs ~10x the solving time (measured 7.9 s
+		// vs 0.6 s on one C17 transcript). Terms whose unfolded size exceeds cutSize therefore become cut
+		// points: a declared constant with a defining equation (equisatisfiable, same models for the declared
+		// variables, scoped by push/pop like the macro). Small terms stay macros, which the incremental core
+		// handles better than auxiliary equations.
+		sz := 1
+		for _, a := range t.Args {
+			switch {
+			case a.Op == OpConst || a.Op == OpVar || s.cut[a.ID]:
+				sz++
+			default:
+				sz += s.treeSize[a.ID]
+			}
+		}
+		if s.treeSize == nil {
+			s.treeSize, s.cut = map[int]int{}, map[int]bool{}
+		}
+		s.treeSize[t.ID] = sz
+		if sz > cutSize {
+			s.cut[t.ID] = true
+		}
+		if s.cut[t.ID] {
+			fmt.Fprintf(&sb, "(declare-const t%d %s)\n(assert (= t%d %s))\n", t.ID, sortStr(t.W), t.ID, body(t))
+		} else {
+			fmt.Fprintf(&sb, "(define-fun t%d () %s %s)\n", t.ID, sortStr(t.W), body(t))
+		}
 	}
 	rec(t)
 	if sb.Len() > 0 {
